@@ -1,7 +1,7 @@
 # Table read by ./check: one entry per property; each run entry is one rapid test
 # (or native fuzz target) with its per-tier case count, shard count and watchdog.
 PROPS = {}
-HOOK_COMMITS = []
+HOOK_COMMITS = ["f1402db2", "bf53f84e"]
 NOT_APPLICABLE = {}
 
 PROPS["C10"] = dict(
@@ -292,5 +292,26 @@ PROPS["C14"] = dict(
          "(sndReplicaReqLoop / rcvReplicaRespLoop) and a backup later took over with shouldSync; distinct by rendered schedule.",
     runs=[
         dict(test="TestC14PrimaryBackup", quick=dict(checks=8000, shards=16, timeout=600), thorough=dict(checks=800000, shards=16, timeout=3300)),
+    ],
+)
+
+PROPS["C16"] = dict(
+    pkg="c16", level="exploration",
+    technique="property-based testing (rapid) over generated schedules, choices, buffer bounds and crash sequences: the real generated archetypes of dqueue, loadbalancer, proxy and gcounter under the deterministic scheduler on spec-faithful environments; shcounter on real 2PC resources in real time",
+    level_text="dqueue (1-4 consumers, buffer 1-3): each produced item goes to exactly the consumer whose request is next in arrival order, in production order, consumed "
+               "at most once, buffers within bound. loadbalancer (1-3 servers, 1-3 clients, buffer 1-3): BuffersOk, every request forwarded to one server and answered "
+               "exactly once to the requesting client. proxy (1-3 servers, crash at every mayFail point, perfect FD): ProxyOK after every commit. gcounter (1-5 nodes, "
+               "ANode and ANodeBench over real GCounter values, harness-scheduled merges): every read equals the increments the node has received, counters never "
+               "decrease. shcounter (1-5 nodes, real 2PC resources, LocalReplicaHandle and RPCReplicaHandle): every node's run ends with cntr = NUM_NODES. No spec assertion fails anywhere.",
+    level_note="Not covered here: shopcart, nestedcrdtimpl and replicatedkv (their CRDT value types and resource are covered by C12/C13). shcounter is real-time "
+               "(120 s watchdog); the others are deterministic functions of the drawn schedule.",
+    rule="per system: dqueue >=2 consumers and a full buffer; loadbalancer >=2 clients and a full buffer; proxy a backend crash while the proxy is working on a "
+         "request; gcounter a merge between two increments; shcounter >=2 contending nodes; distinct by rendered schedule/configuration.",
+    runs=[
+        dict(test="TestC16DQueue", quick=dict(checks=6000, shards=4, timeout=300), thorough=dict(checks=600000, shards=16, timeout=3000)),
+        dict(test="TestC16LoadBalancer", quick=dict(checks=6000, shards=4, timeout=300), thorough=dict(checks=600000, shards=16, timeout=3000)),
+        dict(test="TestC16Proxy", quick=dict(checks=6000, shards=4, timeout=300), thorough=dict(checks=600000, shards=16, timeout=3000)),
+        dict(test="TestC16GCounter", quick=dict(checks=6000, shards=2, timeout=300), thorough=dict(checks=400000, shards=16, timeout=3000)),
+        dict(test="TestC16ShCounter", quick=dict(checks=96, shards=4, timeout=600), thorough=dict(checks=4000, shards=16, timeout=3300)),
     ],
 )
